@@ -12,6 +12,7 @@ from z3 import *
 from pyvc.core import *
 
 PROPS = ['C08']
+REPLAY = {'driver': 'parse_params'}
 REL = 'taskiq/receiver/params_parser.py'
 TRUSTED = [
     "parse_obj_as(T, v) returns conv(T, v) or raises ValueError/RuntimeError (pydantic's ValidationError is a ValueError); any other exception class is not caught by parse_params",
